@@ -315,7 +315,12 @@ PROPS = {
                      "Grol.E.C01.eval_unwrap", "Grol.E.C01.evalI_lambda", "Grol.E.C01.evalI_call",
                      "Grol.E.C01.evalExpressions_cons", "Grol.E.C01.finishCall_value", "Grol.E.C01.apply_is_body",
                      "Grol.E.C01.apply_bind_error", "Grol.E.C01.apply_non_function",
-                     "Grol.E.C01.bind_one", "Grol.E.C01.bindParams_run", "Grol.E.C01.extend_plain", "Grol.E.C01.apply_plain"],
+                     "Grol.E.C01.bind_one", "Grol.E.C01.bindParams_run", "Grol.E.C01.extend_plain", "Grol.E.C01.apply_plain",
+                     "Grol.E.C01.evalI_ident", "Grol.E.C01.evalI_incr_decr", "Grol.E.C01.evalI_post",
+                     "Grol.E.C01.evalI_builtin", "Grol.E.C01.evalI_arr", "Grol.E.C01.evalI_mapLit", "Grol.E.C01.evalI_idx",
+                     "Grol.E.C01.evalI_comment", "Grol.E.C01.evalI_nil_node", "Grol.E.C01.evalI_macroLit",
+                     "Grol.E.C01.evalI_func_named", "Grol.E.C01.evalI_no_fuel", "Grol.E.C01.exprs_continue",
+                     "Grol.E.C01.exprs_error"],
         "suites": [["eval", "C01"]],
         "rule": EVAL_RULE + " C01 statement: the default configuration's output/value/error flag per input equal the reference (model without cache).",
         "trusted_base": EVAL_TB,
